@@ -28,6 +28,8 @@ func main() {
 		runPure(*in, *out, *seed)
 	case "registry":
 		runRegistry(*in, *out, *seed)
+	case "conc":
+		runConc(*in, *out, *seed)
 	case "nego":
 		runNego(*in, *out, *seed)
 	default:
